@@ -99,6 +99,9 @@ def generated(family):
     (defined, reachable, productive) and without cyclic nullable/unit derivations.
     Adjacent terminals are merged by string concatenation (as a BNF author would write it).
     """
+    if family in ("3ntN3", "3ntN4"):
+        yield from _nullable_family(3 if family == "3ntN3" else 4)
+        return
     if family == "1nt2":
         nts, maxlen = ["<A>"], 2
     elif family == "1nt3":
@@ -128,6 +131,35 @@ def generated(family):
         if member.has_cyclic_unit(cg):
             continue
         yield g
+
+
+def _nullable_family(alen):
+    """Three nonterminals, built around (indirect) nullability: <A> one alternative of 1..alen symbols over
+    {<B>, <C>, a, b}; <B> 1-2 alternatives from {eps, <C>, a, b, <C>a, a<C>, <C><C>}; <C> 1-2 alternatives from
+    {eps, a, b, a<C>} .  <B> is defined BEFORE <C> (nullability has to propagate against definition order)."""
+    syms = ["<B>", "<C>", "a", "b"]
+    a_alts = []
+    for n in range(1, alen + 1):
+        a_alts.extend(itertools.product(syms, repeat=n))
+    b_pool = [(), ("<C>",), ("a",), ("b",), ("<C>", "a"), ("a", "<C>"), ("<C>", "<C>")]
+    c_pool = [(), ("a",), ("b",), ("a", "<C>")]
+    b_choices = [(x,) for x in b_pool] + list(itertools.combinations(b_pool, 2))
+    c_choices = [(x,) for x in c_pool] + list(itertools.combinations(c_pool, 2))
+    seen = set()
+    for a in a_alts:
+        for b in b_choices:
+            for c in c_choices:
+                g = {"<start>": ["<A>"], "<A>": ["".join(a)], "<B>": ["".join(x) for x in b], "<C>": ["".join(x) for x in c]}
+                if any(len(set(v)) != len(v) for v in g.values()):
+                    continue
+                key = tuple((k, tuple(v)) for k, v in g.items())
+                if key in seen:
+                    continue
+                seen.add(key)
+                cg = canon(g)
+                if not member.well_formed(cg) or member.has_cyclic_unit(cg):
+                    continue
+                yield g
 
 
 def digest(objs):
